@@ -155,8 +155,11 @@ func decodeScenario(r *rand.Rand) scenarioT {
 			add("AssumeREP", bit)
 		}
 	}
-	if r.Intn(2) == 0 {
+	switch r.Intn(4) {
+	case 0:
 		add("SetBase", 0x8000)
+	case 1:
+		add("SetBase", (r.Intn(0x7E)<<16)+0xFFFC+r.Intn(4)) // the instruction sits at the very end of a bank
 	}
 	add(m, randArgs(r, m, false)...)
 	add("Decode")
@@ -186,8 +189,17 @@ func randomScenario(r *rand.Rand, profile string) scenarioT {
 		}
 		add(m, []int{0x10, 0x20, 0x30}[r.Intn(3)])
 	}
+	// labels and comments may precede the base directive
+	if !straight && r.Intn(6) == 0 {
+		add("Comment", commentText(r))
+	}
+	if !straight && r.Intn(8) == 0 {
+		add("Label", labelPool[r.Intn(len(labelPool))])
+	}
+	baseAt := -1
 	if r.Intn(2) == 0 {
-		bases := []int{0x8000, 0x008000 + r.Intn(0x4000), 0x1F8000, 0x7E2000, 0x00E000, 0}
+		bases := []int{0x8000, 0x008000 + r.Intn(0x4000), 0x1F8000, 0x7E2000, 0x00E000, 0, 0}
+		baseAt = len(calls)
 		add("SetBase", bases[r.Intn(len(bases))])
 	}
 	n := 4 + r.Intn(40)
@@ -286,6 +298,10 @@ func randomScenario(r *rand.Rand, profile string) scenarioT {
 	}
 	// capacity: measured with a real dry-run emitter, then exact / a few bytes short / tiny / generous
 	size := measure(calls, sc.Gen)
+	// sometimes the program is placed so that it ends exactly at (or a few bytes before) the end of its bank
+	if baseAt >= 0 && size > 0 && size < 0x8000 && r.Intn(5) == 0 {
+		calls[baseAt].A = []interface{}{(1+r.Intn(0x7D))<<16 + 0x10000 - size - []int{0, 0, 1, 3}[r.Intn(4)]}
+	}
 	switch r.Intn(10) {
 	case 0:
 		sc.Cap = size
